@@ -31,7 +31,7 @@ def schedules_for(n, tmp, depth=None):
     with open(cfgpath, "w") as fh:
         fh.write("SPECIFICATION Spec\nCONSTANTS\n  NWrites = %d\n  MaxDepth = %d\n  MaxKills = 2\nVIEW View\n"
                  "INVARIANT TypeOK\nINVARIANT ReadOnlySeesDisk\nPROPERTY ReadOnlyNeverChanges\n"
-                 "PROPERTY KillAfterFlushLosesNothing\nPROPERTY OpenShowsDisk\nPROPERTY DiskMonotone\n"
+                 "PROPERTY KillAfterFlushLosesNothing\nPROPERTY OpenShowsDisk\nPROPERTY DiskMonotone\nPROPERTY CloseMakesDurable\n"
                  "ACTION_CONSTRAINT Export\nCHECK_DEADLOCK FALSE\n" % (n, depth or (7 + 2 * n)))
     seqs = []
 
@@ -66,8 +66,11 @@ class Resumed(nm.Session):
         for num, u in self.uuid.items():
             self.reg.bind(u, "e%d" % num)
         self._install_clock()
-        self.nf = nixio.File.open(path, mode)
-        self.nf.auto_update_timestamps = self.auto
+        if self.rnd.random() < 0.5:
+            self.nf = nixio.File.open(path, mode, auto_update_timestamps=self.auto)
+        else:
+            self.nf = nixio.File.open(path, mode)
+            self.nf.auto_update_timestamps = self.auto
         self.log = []
 
     def export(self, side):
@@ -129,6 +132,8 @@ def _child(nixio, path, sidepath, conc, mode, segment, writes, final_act, nwrite
                 if out.ok != (call["out"] == "ok"):
                     side["diverged"] = True      # an earlier transition's business; nothing after it is tied to the model
                 mem += 1
+                if getattr(sess, "older", None) is not None:
+                    side["since_second"] = side.get("since_second", 0) + 1
             elif nme == "Attempt":
                 before = nm.project(sess.nf, sess.reg)
                 out = sess.apply(final_act)
@@ -141,11 +146,33 @@ def _child(nixio, path, sidepath, conc, mode, segment, writes, final_act, nwrite
                     events.append({"what": "readonly_session_sees_change", "path": d[0][0], "expected": d[0][1],
                                    "observed": d[0][2]})
             elif nme == "Flush":
+                if getattr(sess, "older", None) is not None:
+                    sess.older.flush()
                 sess.nf.flush()
+                side["since_second"] = 0
                 side["durable"] = nm.project(sess.nf, sess.reg)
                 side["mem"] = mem
                 sess.export(side)
                 spec_check("flush")
+                _persist(sidepath, side)
+            elif nme == "OpenSecond":
+                # a second File object on the same path; the session goes on through it (fresh handles)
+                older = sess.nf
+                sess.nf = nixio.File.open(path, nixio.FileMode.ReadWrite)
+                sess.nf.auto_update_timestamps = sess.auto
+                sess.handles, sess.handles_b = {}, {}
+                sess.older = older
+                side["since_second"] = 0
+            elif nme == "CloseFirst":
+                if side.get("since_second", 0) == 0:
+                    # nothing was written through the second object: closing the first makes everything durable
+                    side["durable"] = nm.project(sess.nf, sess.reg)
+                    side["mem"] = mem
+                    spec_check("close_first")
+                sess.export(side)
+                sess.older.close()
+                sess.older = None
+                side["second_handles"] = side.get("second_handles", 0) + 1
                 _persist(sidepath, side)
             elif nme == "Close":
                 if mode == "rw":
@@ -205,6 +232,7 @@ def run_schedule(nixio, path, sidepath, conc, schedule, tx, how_seed, res, findi
             side = json.load(fh)
         killed = os.WIFSIGNALED(status)
         ended = s["acts"][-1]["name"] if s["acts"] else "none"
+        res["second_closes"] += sum(1 for a in s["acts"] if a["name"] == "CloseFirst")
         if side.get("errors"):
             raise core.MachineryError("session child failed: %s" % side["errors"][0])
         if ended == "Kill" and not killed:
@@ -284,13 +312,18 @@ def replay_one(tx):
     n = len(tx["hist"])
     scheds = _W["sched"].get(n)
     res = {"findings": [], "truncated": 0, "calls": 0, "sessions": 0, "ro_sessions": 0, "kills": 0, "dirty_kills": 0,
-           "attempts": 0, "verifications": 0, "schedules": 0}
+           "attempts": 0, "verifications": 0, "schedules": 0, "second_closes": 0}
     if not scheds:
         return res
     h = zlib.crc32(json.dumps(tx["act"], sort_keys=True).encode()) + 31 * n
     seed = (opts["seed"] * 1000003 + h) % (2 ** 31)
     conc = nm.Conc(seed, name_pool=opts["name_pools"][seed % len(opts["name_pools"])])
     schedule = scheds[(seed // 7 + _W["n"]) % len(scheds)]
+    if opts.get("want") == "kill" and _W["n"] % 4 == 0:
+        # a quarter of the kill schedules: the kill that follows close() of one of two File objects
+        cf = [s_ for s_ in scheds if any(s_[i]["name"] == "CloseFirst" and s_[i + 1]["name"] == "Kill" for i in range(len(s_) - 1))]
+        if cf:
+            schedule = cf[(seed // 7) % len(cf)]
     path = os.path.join(_W["dir"], "f%d.nix" % (_W["n"] % 3))
     sidepath = path + ".side.json"
     act = tx["act"]
@@ -310,7 +343,7 @@ def replay_record(rec, prop):
     rp = rec["replay"]
     nixio = core.import_nixio()
     res = {"findings": [], "truncated": 0, "calls": 0, "sessions": 0, "ro_sessions": 0, "kills": 0, "dirty_kills": 0,
-           "attempts": 0, "verifications": 0, "schedules": 1}
+           "attempts": 0, "verifications": 0, "schedules": 1, "second_closes": 0}
     conc = nm.Conc(rp["seed"], name_pool=rp["name_pools"][rp["seed"] % len(rp["name_pools"])])
     tx = {"hist": rp["hist"], "act": rp["act"], "from": rp["from"], "to": rp["to"]}
     hits = []
